@@ -275,7 +275,8 @@ class CallSite:
     node: ast.Call
     targets: List[FuncInfo]  # resolved repo-internal targets (may be several: CHA)
     external: Optional[str]  # dotted external / builtin name, or "<type>.<method>"
-    dynamic: bool = False  # resolved through the address-taken over-approximation
+    dynamic: bool = False  # resolved through a function-value slot or by method name
+    wild: bool = False  # arity-only over-approximation over all address-taken functions
     resolved: bool = True
 
     @property
@@ -305,6 +306,7 @@ class Program:
         self.callers: Dict[str, List[CallSite]] = {}  # callee qualname -> sites
         self.address_taken: Dict[str, List[Tuple[FuncInfo, ast.AST]]] = {}
         self.slot_targets: Dict[Tuple[str, str], Set[FuncInfo]] = {}
+        self.param_targets: Dict[Tuple[str, str], Set[FuncInfo]] = {}
         self.stats: Dict[str, int] = {}
         self._load()
         self._link()
@@ -1017,22 +1019,32 @@ class Program:
         for func in list(self.functions.values()):
             self._collect_address_taken(func)
         self._collect_slots()
-        total = internal = resolved_internal = 0
-        for func in list(self.functions.values()):
-            sites: List[CallSite] = []
-            for node in walk_local(func.node, include_root=False):
-                if isinstance(node, ast.Call):
-                    site = self.resolve_call(func, node)
-                    sites.append(site)
-                    total += 1
-                    if site.targets:
-                        internal += 1
-                        resolved_internal += 1
-                    elif not site.resolved:
-                        internal += 1
-                    for target in site.targets:
-                        self.callers.setdefault(target.qualname, []).append(site)
-            self.callsites[func.qualname] = sites
+        funcs = list(self.functions.values())
+        for _round in range(5):
+            self.callers = {}
+            grew = False
+            total = internal = resolved_internal = wild = 0
+            for func in funcs:
+                sites: List[CallSite] = []
+                for node in walk_local(func.node, include_root=False):
+                    if isinstance(node, ast.Call):
+                        site = self.resolve_call(func, node)
+                        sites.append(site)
+                        total += 1
+                        if site.targets:
+                            internal += 1
+                            resolved_internal += 1
+                            wild += 1 if site.wild else 0
+                        elif not site.resolved:
+                            internal += 1
+                        for target in site.targets:
+                            self.callers.setdefault(target.qualname, []).append(site)
+                        if not site.wild and (node.args or node.keywords):
+                            grew = self._flow_function_args(func, site) or grew
+                self.callsites[func.qualname] = sites
+            grew = self._flow_dict_slots() or grew
+            if not grew:
+                break
         self.stats.update(
             modules=len(self.modules),
             classes=len(self.classes),
@@ -1040,10 +1052,76 @@ class Program:
             call_sites=total,
             internal_or_unknown_call_sites=internal,
             resolved_internal_call_sites=resolved_internal,
+            wild_call_sites=wild,
+            resolution_rounds=_round + 1,
         )
+
+    def _flow_function_args(self, caller: FuncInfo, site: CallSite) -> bool:
+        """Function values passed as arguments flow into (callee, parameter) slots."""
+        grew = False
+        refs: List[Tuple[Optional[int], Optional[str], List[FuncInfo]]] = []
+        for index, arg in enumerate(site.node.args):
+            if isinstance(arg, ast.Starred):
+                break
+            found = self._function_ref(caller, arg)
+            if not found and isinstance(arg, ast.Name):
+                found = sorted(self.param_targets.get((caller.qualname, arg.id), ()), key=lambda f: f.qualname)
+            if found:
+                refs.append((index, None, found))
+        for keyword in site.node.keywords:
+            if keyword.arg:
+                found = self._function_ref(caller, keyword.value)
+                if found:
+                    refs.append((None, keyword.arg, found))
+        if not refs:
+            return False
+        for target in site.targets:
+            params = list(target.params)
+            if target.kind in ("instance", "class", "property") and params:
+                params = params[1:]
+            for index, name, found in refs:
+                param = name if name is not None else (params[index] if index is not None and index < len(params) else None)
+                if param is None:
+                    continue
+                slot = self.param_targets.setdefault((target.qualname, param), set())
+                before = len(slot)
+                slot.update(found)
+                grew = grew or len(slot) != before
+        return grew
+
+    def _flow_dict_slots(self) -> bool:
+        """``self.F[k] = p`` / ``Cls.F[k] = p`` / ``self.F = p`` / ``self.F.append(p)`` with p a
+        function-valued parameter."""
+        grew = False
+        for (qual, param), found in list(self.param_targets.items()):
+            func = self.functions.get(qual)
+            if func is None or func.cls is None:
+                continue
+            for node in walk_local(func.node):
+                base: Optional[ast.AST] = None
+                if isinstance(node, ast.Assign) and isinstance(node.value, ast.Name) and node.value.id == param:
+                    for target in node.targets:
+                        base = target.value if isinstance(target, ast.Subscript) else target
+                elif (
+                    isinstance(node, ast.Call) and isinstance(node.func, ast.Attribute) and node.func.attr in ("append", "add")
+                    and node.args and isinstance(node.args[0], ast.Name) and node.args[0].id == param
+                ):
+                    base = node.func.value
+                if not isinstance(base, ast.Attribute):
+                    continue
+                owner = self.infer(func, base.value)
+                if owner and owner[0] in ("cls", "type"):
+                    key = (owner[1].qualname, base.attr)
+                    slot = self.slot_targets.setdefault(key, set())
+                    before = len(slot)
+                    slot.update(found)
+                    grew = grew or len(slot) != before
+        return grew
 
     def _function_ref(self, func: FuncInfo, expr: ast.AST) -> List[FuncInfo]:
         """Functions denoted by ``expr`` when used as a value (not called)."""
+        if isinstance(expr, ast.Call) and dotted(expr.func) == "cast" and len(expr.args) == 2:
+            return self._function_ref(func, expr.args[1])
         if isinstance(expr, (ast.Name, ast.Attribute)):
             typ = self.infer(func, expr)
             if typ and typ[0] == "func":
@@ -1182,7 +1260,7 @@ class Program:
                         if ftype and ftype[0] == "type":
                             return self._site_from_type(func, call, ftype) or CallSite(func, call, [], None, resolved=False)
                         return self._dynamic_site(func, call)
-                    if "Protocol" in cls.ext_base_names() or cls.name.endswith("Protocol"):
+                    if any(n.endswith("Protocol") for n in cls.ext_base_names()) or cls.name.endswith("Protocol"):
                         return self._dynamic_site(func, call)
                     ext = cls.ext_base_names()
                     if ext:
@@ -1229,6 +1307,55 @@ class Program:
                 return None
         return None
 
+    def _slot_call(self, func: FuncInfo, call: ast.Call) -> Optional[Set[FuncInfo]]:
+        callee = call.func
+        if isinstance(callee, ast.Name):
+            found = self.param_targets.get((func.qualname, callee.id))
+            if found:
+                return found
+            # local bound from a slot: x = self.F[k]  /  x: T = self.F[k]  /  x = get_handler(...)
+            for node in walk_local(func.node):
+                value: Optional[ast.AST] = None
+                if isinstance(node, ast.Assign) and any(isinstance(t, ast.Name) and t.id == callee.id for t in node.targets):
+                    value = node.value
+                elif isinstance(node, ast.AnnAssign) and isinstance(node.target, ast.Name) and node.target.id == callee.id:
+                    value = node.value
+                if value is not None:
+                    inner = self._slot_expr(func, value)
+                    if inner:
+                        return inner
+            return None
+        return self._slot_expr(func, callee)
+
+    def _slot_expr(self, func: FuncInfo, expr: ast.AST, _depth: int = 0) -> Optional[Set[FuncInfo]]:
+        base = expr.value if isinstance(expr, ast.Subscript) else expr
+        if isinstance(base, ast.Attribute):
+            owner = self.infer(func, base.value)
+            if owner and owner[0] in ("cls", "type"):
+                found = self._slot_for(owner[1], base.attr)
+                if found:
+                    return found
+                match = re.match(r"^_([A-Za-z0-9]+?)(__\w+)$", base.attr)
+                if match:
+                    return self._slot_for(owner[1], match.group(2))
+        if isinstance(base, ast.Call) and _depth < 3:
+            # a function that returns a slot element (e.g. a getter over a handler table)
+            typ = self.infer(func, base.func)
+            targets: List[FuncInfo] = []
+            if typ and typ[0] == "func":
+                targets = [typ[1]]
+            elif typ and typ[0] == "bound":
+                targets = self._cha(typ[2], typ[1].name)
+            out: Set[FuncInfo] = set()
+            for target in targets:
+                for node in walk_local(target.node):
+                    if isinstance(node, ast.Return) and node.value is not None:
+                        inner = self._slot_expr(target, node.value, _depth + 1)
+                        if inner:
+                            out |= inner
+            return out or None
+        return None
+
     def _site_from_type(self, func: FuncInfo, call: ast.Call, typ: Type) -> Optional[CallSite]:
         assert typ is not None
         if typ[0] == "type":
@@ -1245,13 +1372,17 @@ class Program:
             return self._dynamic_site(func, call)
         if typ[0] == "cls":
             call_method = typ[1].find_method("__call__")
-            if call_method and typ[1].subclasses == [] and "Protocol" not in typ[1].ext_base_names():
+            if call_method and typ[1].subclasses == [] and not any(n.endswith("Protocol") for n in typ[1].ext_base_names()):
                 return CallSite(func, call, [call_method], None)
             return self._dynamic_site(func, call)
         return None
 
     def _dynamic_site(self, func: FuncInfo, call: ast.Call) -> CallSite:
-        """Call through a function value: any address-taken function of compatible arity."""
+        """Call through a function value: a known slot, else any address-taken function of
+        compatible arity (``wild``)."""
+        precise = self._slot_call(func, call)
+        if precise is not None:
+            return CallSite(func, call, sorted(precise, key=lambda f: f.qualname), None, dynamic=True)
         nargs = len(call.args) + len(call.keywords)
         targets: List[FuncInfo] = []
         for qual in self.address_taken:
@@ -1264,7 +1395,7 @@ class Program:
             if node.args.vararg or node.args.kwarg or (params - defaults) <= nargs <= params:
                 targets.append(target)
         targets.sort(key=lambda f: f.qualname)
-        return CallSite(func, call, targets, None, dynamic=True)
+        return CallSite(func, call, targets, None, dynamic=True, wild=True)
 
     # ---------------------------------------------------------------- queries
     def func(self, qualname: str) -> FuncInfo:
@@ -1297,7 +1428,7 @@ class Program:
         return out
 
     def reachable(self, roots: Iterable[FuncInfo], include_dynamic: bool = True,
-                  stop: Optional[Set[str]] = None) -> Dict[str, Optional[Tuple[FuncInfo, CallSite]]]:
+                  stop: Optional[Set[str]] = None, include_wild: bool = False) -> Dict[str, Optional[Tuple[FuncInfo, CallSite]]]:
         """Functions reachable from roots; value = (parent, call site) for witness paths."""
         parent: Dict[str, Optional[Tuple[FuncInfo, CallSite]]] = {}
         queue: List[FuncInfo] = []
@@ -1311,6 +1442,8 @@ class Program:
                 continue
             for site in self.sites_in(cur):
                 if site.dynamic and not include_dynamic:
+                    continue
+                if site.wild and not include_wild:
                     continue
                 for target in site.targets:
                     if target.qualname not in parent:
